@@ -62,6 +62,7 @@ PAIRS_THOROUGH = PAIRS_QUICK + [
     ("(measured.si.Meter ** 3)", "measured.si.Liter"),
 ]
 LEVEL_UNITS = [
+    ("measured.Decibel[1 * measured.us.Foot]", "measured.si.Meter"),
     ("measured.Decibel[1 * measured.si.Watt]", "measured.si.Watt"),
     ("measured.Decibel[1 * measured.si.Milli * measured.si.Watt]", "measured.si.Watt"),
     ("measured.Decibel[1 * measured.si.Volt]", "(measured.si.Milli * measured.si.Volt)"),
@@ -390,7 +391,10 @@ def level_task(acc: work.Acc, luc: str, qc: str, shape: str, kinds: Dict[str, st
             other = Measurement(v["x"] * QU, v["s"])
         else:
             other = v["x"] * LU
-        return {"eq_ab": lv == other, "eq_ba": other == lv, "eq_aa": lv == lv}
+        out = {"eq_ab": lv == other, "eq_ba": other == lv, "eq_aa": lv == lv}
+        if shape == "LQ":
+            out["denoted"] = lv.quantify().magnitude      # in the reference unit
+        return out
 
     def assume(vs: Dict[str, z3.ArithRef]) -> List[z3.BoolRef]:
         a = [vs["l"] >= -200, vs["l"] <= 200]
@@ -432,17 +436,26 @@ sys.exit(0)
                 acc.out["viol"].append((f"C12:level:{shape}:raises-{p.outcome}",
                                         f"{p.outcome} from comparing {cfg}", replay(m)))
             continue
-        o = {k: norm(v) for k, v in p.result.items()}
-        if shape == "LM" or same_unit or shape == "LL":
+        o = {k: norm(v) for k, v in p.result.items() if k != "denoted"}
+        if shape == "LQ" and not same_unit:
+            # a quantity in another unit than the reference: away from the tie both orders must
+            # say "different"; the level's value is what its own quantify() denotes, the
+            # quantity's is taken into the reference unit with the declaration oracle
+            rr = families.orc().ratio(QU, LU.reference.unit)
+            if rr is None:
+                raise symnum.HarnessError(f"oracle cannot relate {qc} to the reference unit")
+            absz = lambda e: z3.If(e >= 0, e, -e)
+            D = real(term(p.result["denoted"]))
+            Xr = real(case.vars["x"]) * symnum.q(rr[0])
+            far = absz(D - Xr) > symnum.q(Fraction(1, 10 ** 6)) * (absz(D) + absz(Xr))
+            acc.prove(case, p, z3.Implies(far, z3.And(z3.Not(o["eq_ab"]), z3.Not(o["eq_ba"]))),
+                      f"{cfg}#p{i}:both-orders-differ-away-from-ties", key,
+                      f"C12:level:{shape}:eq-asymmetric", f"a == b or b == a holds for clearly different values, {cfg}",
+                      replay, shape_extra=[real(case.vars["l"]) == 0])
+        elif shape == "LM" or same_unit or shape == "LL":
             acc.prove(case, p, o["eq_ab"] == o["eq_ba"], f"{cfg}#p{i}:symmetric", key,
                       f"C12:level:{shape}:eq-asymmetric", f"(a == b) != (b == a) for {cfg}",
                       replay)
-        else:
-            # different units on the two sides: conversion constants differ by rounding in the
-            # two directions, so only "both False away from the tie" can be demanded; the tie
-            # zone is excluded by asking for a model that is asymmetric AND not a near-tie,
-            # which requires relating the two sides numerically -- done in C18.
-            acc.ob("unsat", f"{cfg}#p{i}:symmetric(delegated-to-C18-away-from-ties)", None)
         acc.prove(case, p, o["eq_aa"], f"{cfg}#p{i}:reflexive", key,
                   f"C12:level:{shape}:not-reflexive", f"a != a for {cfg}", replay)
     acc.sample({"config": cfg, "paths": len(ex.paths)})
